@@ -15,6 +15,18 @@ import (
 
 var Noop = func(c fox.Context) {}
 
+// LastServed is what the recording handler saw on the last request it served (single goroutine).
+var LastServed Obs
+
+// Rec is a handler that records the pattern and parameters the handler observes through its Context.
+var Rec = func(c fox.Context) {
+	o := Obs{Found: true, Pattern: c.Pattern()}
+	for p := range c.Params() {
+		o.Params = append(o.Params, [2]string{p.Key, p.Value})
+	}
+	LastServed = o
+}
+
 // ---------- pattern generation ----------
 
 var pathSegs = []string{"a", "b", "ab", "abc", "{x}", "{y}", "a{x}", "ab{y}", "*{w}", "*{v}", "b*{w}", "a*{v}", "c", "{x}"}
@@ -385,6 +397,22 @@ func OtherEntryPoints(f *fox.Router, method, host, path string, want Obs, ignore
 			return false, name + ".Reverse differs"
 		}
 	}
+	// ServeHTTP: the handler must observe the same route and parameters (trailing-slash matches are
+	// served because every route ignores trailing slashes in this harness)
+	if ignoreTS && method != "CONNECT" && method != "OPTIONS" {
+		LastServed = Obs{}
+		rec := httptest.NewRecorder()
+		f.ServeHTTP(rec, NewRequest(method, host, path))
+		got := LastServed
+		exp := want
+		if want.Found && want.Tsr && path == "/" {
+			exp = Obs{} // URL.Path "/" never gets a trailing-slash action
+		}
+		got.Tsr = exp.Tsr
+		if fmtObs(got) != fmtObs(exp) {
+			return false, "ServeHTTP handler saw " + fmtObs(got)
+		}
+	}
 	return true, ""
 }
 
@@ -401,3 +429,66 @@ func fmtObs(o Obs) string {
 	}
 	return s
 }
+
+// TxnEntryPoints observes Txn.Lookup (params), Txn.Reverse and Txn.Iter().Reverse on an OPEN write
+// transaction and reports whether they agree with each other.
+func TxnEntryPoints(txn *fox.Txn, method, host, path string) (lookup Obs, reverse Obs, ok bool, detail string) {
+	defer func() {
+		if r := recover(); r != nil {
+			lookup, ok, detail = Obs{Panic: fmt.Sprint(r)}, false, "panic: "+fmt.Sprint(r)
+		}
+	}()
+	w := httptest.NewRecorder()
+	_, c := fox.NewTestContext(w, NewRequest(method, host, path))
+	rte, cc, tsr := txn.Lookup(c.Writer(), NewRequest(method, host, path))
+	if rte != nil {
+		lookup = Obs{Found: true, Pattern: rte.Pattern(), Tsr: tsr}
+		for p := range cc.Params() {
+			lookup.Params = append(lookup.Params, [2]string{p.Key, p.Value})
+		}
+		cc.Close()
+	}
+	if rr, rtsr := txn.Reverse(method, host, path); rr != nil {
+		reverse = Obs{Found: true, Pattern: rr.Pattern(), Tsr: rtsr}
+	}
+	ok = true
+	one := func(yield func(string) bool) { yield(method) }
+	found, pat := false, ""
+	for _, r := range txn.Iter().Reverse(one, host, path) {
+		found, pat = true, r.Pattern()
+	}
+	if found != lookup.Found || (found && pat != lookup.Pattern) {
+		ok, detail = false, "Txn.Iter().Reverse differs"
+	}
+	for _, r := range txn.Iter().Routes(one, lookup.Pattern) {
+		if lookup.Found && r.Pattern() != lookup.Pattern {
+			ok, detail = false, "Txn.Iter().Routes differs"
+		}
+	}
+	return
+}
+
+// ServeObs serves the request through ServeHTTP and returns what the recording handler saw.
+func ServeObs(f *fox.Router, method, host, path string) (o Obs) {
+	defer func() {
+		if r := recover(); r != nil {
+			o = Obs{Panic: fmt.Sprint(r)}
+		}
+	}()
+	LastServed = Obs{}
+	f.ServeHTTP(httptest.NewRecorder(), NewRequest(method, host, path))
+	return LastServed
+}
+
+// ExpectServed is what the handler must see given the Lookup observation (all routes ignore
+// trailing slashes; "/" never gets a trailing-slash action; CONNECT never does).
+func ExpectServed(want Obs, method, path string) string {
+	if want.Found && want.Tsr && (path == "/" || method == "CONNECT") {
+		return "none"
+	}
+	w := want
+	w.Tsr = false
+	return fmtObs(w)
+}
+
+func FmtObs(o Obs) string { return fmtObs(o) }
